@@ -707,5 +707,54 @@ theorem filterTxs_recOK {c : Ctx} {st : Store}
       · exact ha tr' hm
       · rw [List.mem_singleton] at hm; subst hm
         exact (filterTxRel_recOK hrel h1 : RecOK addrs ready tr)
+-- ------------------------------------------------------------------ filterBlock
+
+/-- the simulation, with the whole loop invariant as conclusion -/
+theorem filterBlock_simInv {c : Ctx} {g' : Store} {b : Block} {conf : List TxId}
+    (hSub : Sub addrs g s) (hng : KeysNodup g.credits) (hns : KeysNodup s.credits)
+    (hF : Fresh ⟨b.height, b.id⟩ g) (hFs : AMap.get s.blocks b.height = none) (hC : CoinsOK addrs ready g)
+    (hfind : ∀ id, existCreditFromTx g id = true → (c.node.fetchTx id).isSome = true)
+    (hown : ∀ (id : TxId) (pt : Tx) (idx : Nat) (o : Out) (w' : Wid) (ch : Bool), existCreditFromTx g id = true →
+      existCreditFromTx s id = false → c.node.fetchTx id = some pt → pt.outs[idx]? = some o → o.cls ≠ .raw →
+      AMap.get c.own o.addr = some (w', ch) → ready.contains w' = false)
+    (hrel : ∀ a w' ch, AMap.get c.own a = some (w', ch) → ready.contains w' = true → addrs.contains a = false)
+    (hg : filterBlock c g ready b = .ok (g', conf)) :
+    ∃ s', filterBlock c s ready b = .ok (s', conf) ∧ SimInv addrs ready ⟨b.height, b.id⟩ g s g' s' := by
+  have tail : ∀ (recs : List TxRec), (∀ tr ∈ recs, RecOK addrs ready tr) → ∀ (g' : Store) (conf : List TxId),
+      (applyRelevant c g ready ⟨b.height, b.id⟩ recs >>= fun s1 =>
+        putSyncedTo (purgeUnrelated c.own s1 (if ready.isEmpty = true then [] else unrelatedTxs b.txs recs))
+          ⟨b.height, b.id⟩ >>= fun s2 => (pure (s2, recs.map (·.tx.id)) : M (Store × List TxId))) = .ok (g', conf) →
+      ∃ s', (applyRelevant c s ready ⟨b.height, b.id⟩ recs >>= fun s1 =>
+        putSyncedTo (purgeUnrelated c.own s1 (if ready.isEmpty = true then [] else unrelatedTxs b.txs recs))
+          ⟨b.height, b.id⟩ >>= fun s2 => (pure (s2, recs.map (·.tx.id)) : M (Store × List TxId))) = .ok (s', conf) ∧
+        SimInv addrs ready ⟨b.height, b.id⟩ g s g' s' := by
+    intro recs hrecs g' conf hg
+    obtain ⟨g1, h1, hg⟩ := M_bind_ok hg
+    obtain ⟨g2, h2, hg⟩ := M_bind_ok hg
+    cases hg
+    obtain ⟨s1, hs1, hI1⟩ := applyRelevant_sim (c := c) (simInv_init hSub hF hFs hC) hrecs h1
+    obtain ⟨s2, hs2, hI2⟩ := putSyncedTo_sim
+      (simInv_minedEq hI1 (minedEq_purgeUnrelated c.own g1 _) (minedEq_purgeUnrelated c.own s1 _)) h2
+    refine ⟨s2, ?_, hI2⟩
+    rw [hs1]
+    simp only [M_ok_bind]
+    rw [hs2]
+    rfl
+  unfold filterBlock at hg ⊢
+  split at hg
+  · cases hg
+  rename_i onChain hbl
+  dsimp only at hg ⊢
+  split at hg
+  · cases hg
+  rename_i hid
+  rw [if_neg hid]
+  by_cases hre : ready.isEmpty = true
+  · rw [if_pos hre] at hg ⊢
+    exact tail [] (fun _ hm => by cases hm) _ _ hg
+  · rw [if_neg hre] at hg ⊢
+    obtain ⟨recs, h0, hg⟩ := M_bind_ok hg
+    rw [filterTxs_sim hSub hng hns hfind hown _ _ _ _ _ h0]
+    exact tail recs (filterTxs_recOK hrel _ _ _ _ _ (fun _ hm => by cases hm) h0) _ _ hg
 
 end MW.Lemmas.RemoveSim
